@@ -170,3 +170,48 @@ def tree_plus(n, max_extra, tree_index=None):
         for k in range(0, max_extra + 1):
             for extra in it.combinations(others, k):
                 yield tree + list(extra), k
+
+
+# ---------------------------------------------------------------------------------------------------------------
+# small core embedded in a long chain (C18/C19 'long-chain' family: size-gated code paths)
+def expand_diamonds(k, edges):
+    """Every core node v becomes in_v -> {l_v, r_v} -> out_v (indices 4v..4v+3); a core edge u -> v becomes
+    out_u -> in_v.  Returns (4k, edges); entry stays index 0 (= in_0)."""
+    out = []
+    for v in range(k):
+        out += [(4 * v, 4 * v + 1), (4 * v, 4 * v + 2), (4 * v + 1, 4 * v + 3), (4 * v + 2, 4 * v + 3)]
+    out += [(4 * u + 3, 4 * v) for (u, v) in edges]
+    return 4 * k, out
+
+
+def long_chain(k, core_edges, mode, L, diamond=False):
+    """Embeds a rooted core (nodes 0..k-1, entry 0) into a graph with a chain of L plain nodes.
+      mode 'behind': entry = c_0 -> c_1 -> ... -> c_{L-1} -> core entry; nodes: chain 0..L-1, core L..L+K-1
+      mode 'before': entry = core entry; EVERY core node -> t_0 -> t_1 -> ... -> t_{L-1}; nodes: core 0..K-1, tail K..
+    Returns dict(n, edges, K, core_edges (expanded, core-local indices), core_off, chain_off)."""
+    K, ce = (expand_diamonds(k, core_edges) if diamond else (k, list(core_edges)))
+    if mode == "behind":
+        edges = [(i, i + 1) for i in range(L - 1)] + [(L - 1, L)] + [(u + L, v + L) for (u, v) in ce]
+        return {"n": L + K, "edges": edges, "K": K, "core_edges": ce, "core_off": L, "chain_off": 0, "mode": mode, "L": L}
+    edges = list(ce) + [(u, K) for u in range(K)] + [(K + i, K + i + 1) for i in range(L - 1)]
+    return {"n": K + L, "edges": edges, "K": K, "core_edges": ce, "core_off": 0, "chain_off": K, "mode": mode, "L": L}
+
+
+def long_chain_idoms(lc, core_idoms):
+    """Reference immediate dominators of a long_chain graph: chain node i <- i-1 (analytic), core from `core_idoms`
+    ({v: idom or None} on core-local indices, computed by the removal definition on the small core)."""
+    L, K, co, ch = lc["L"], lc["K"], lc["core_off"], lc["chain_off"]
+    want = {}
+    if lc["mode"] == "behind":
+        want[0] = None
+        for i in range(1, L):
+            want[i] = i - 1
+        for v, d in core_idoms.items():
+            want[co + v] = (L - 1) if d is None else co + d
+    else:
+        for v, d in core_idoms.items():
+            want[v] = d
+        want[ch] = 0                      # every core node, the entry included, jumps to t_0
+        for i in range(1, L):
+            want[ch + i] = ch + i - 1
+    return want
